@@ -725,7 +725,29 @@ func (m *Model) ElemIx(off, i *Term) *Term {
 		k := m.tb.BoundVar("k", ix)
 		m.addAxiom(m.tb.Forall([]*Term{o, k}, m.tb.Eq(m.tb.App("ix", ix, o, k), m.IxAdd(o, k))))
 	}
-	return m.tb.App("ix", ix, off, i)
+	// fold sub-slice offsets into the index: ix(base+d, i) is written ix(base, d+i),
+	// so that b[lo:hi][k] and b[lo+k] are the same term
+	base, delta := m.splitOff(off)
+	if delta != nil {
+		i = m.IxAdd(delta, i)
+	}
+	return m.tb.App("ix", ix, base, i)
+}
+
+// splitOff peels additions off an offset term: off = base + delta.
+func (m *Model) splitOff(off *Term) (base, delta *Term) {
+	op := "+"
+	if m.mode == ModeBV {
+		op = "bvadd"
+	}
+	if off.op == op && len(off.args) == 2 {
+		b, d := m.splitOff(off.args[0])
+		if d == nil {
+			return b, off.args[1]
+		}
+		return b, m.IxAdd(d, off.args[1])
+	}
+	return off, nil
 }
 func (m *Model) IxLe(a, b *Term) *Term { return m.Compare(token.LEQ, a, b, tInt) }
 func (m *Model) IxLt(a, b *Term) *Term { return m.Compare(token.LSS, a, b, tInt) }
